@@ -53,20 +53,21 @@ Record ext := mkExt {
   x_futs : list (Z * fut);
   x_nfut : Z;
   x_blocks : list (Z * list raw);
+  x_ntodo : Z;                   (* anonymous ToDos created so far (identities 1000, 1001, ...) *)
   x_npool : Z;                   (* pools created so far (buffer identities are unique across pools) *)
   x_held : list (Z * Z);         (* buffers (owner, id) whose BufferPtr the scenario (the user) holds *)
   x_arg : option (Z * Z);        (* buffer handed to the handler that is running (owner, id), if not kept yet *)
   x_acc : option (Z * Z)         (* (descriptor, peer) of the socket handed to the running connect handler *)
 }.
 #[export] Instance eta_ext : Settable _ :=
-  settable! mkExt <x_pools; x_socks; x_names; x_driver; x_todos; x_futs; x_nfut; x_blocks; x_npool; x_held; x_arg; x_acc>.
+  settable! mkExt <x_pools; x_socks; x_names; x_driver; x_todos; x_futs; x_nfut; x_blocks; x_ntodo; x_npool; x_held; x_arg; x_acc>.
 
 Definition dummy_pool : pool := {| p_max := 0; p_idle := []; p_busy := []; p_next := 0 |}.
 Definition no_driver : driver :=
   {| d_alive := false; d_from := -1; d_to := -1; d_todos := []; d_socks := []; d_pfds := []; d_stop := false |}.
 Definition ext_init : ext :=
   {| x_pools := []; x_socks := []; x_names := []; x_driver := no_driver; x_todos := []; x_futs := []; x_nfut := 0;
-     x_blocks := []; x_npool := 0; x_held := []; x_arg := None; x_acc := None |}.
+     x_blocks := []; x_ntodo := 0; x_npool := 0; x_held := []; x_arg := None; x_acc := None |}.
 
 Section Assoc.
 Context {V : Type}.
